@@ -172,6 +172,15 @@ impl Matcher {
                 self.process_corporate_action(tx)?;
             }
 
+            #[cfg(feature = "verif-hooks")]
+            crate::verif::snapshot_day(
+                current_date,
+                &self.ledgers,
+                &self.pools,
+                &future_consumption,
+                &same_day_reservations,
+            );
+
             i = day_end;
         }
 
@@ -353,6 +362,9 @@ impl Matcher {
 
             i = day_end;
         }
+
+        #[cfg(feature = "verif-hooks")]
+        crate::verif::snapshot_prepass(&ledgers);
 
         let mut offsets = vec![Decimal::ZERO; transactions.len()];
         for ledger in ledgers.values() {
